@@ -77,6 +77,7 @@ def run(tier, v):
         for e in ev:
             if e.get("e") == "fs" and e.get("allsame"):
                 e["allsame"] = False
+                e["claimsame"] = False
                 e["nsame"] = 0
                 break
         return ev
